@@ -69,6 +69,21 @@ def grid(tier, seed):
                         continue
                     g.append((f"{rk} {pk}{extra_k} seed={sd}",
                               W.mk_world(wl, clus, dict(pf, **extra), sd, tape=None)))
+    # millisecond-scale tasks whose slack (0-30 % of 1000 us) is of the order of the
+    # policies' own wall-clock latency, with deadline enforcement: a decision that
+    # depends on measured time shows up as a different set of cancelled tasks between
+    # the real clock and the x1000 clock
+    slow = [[W.strat(1000, CPU=1)], [W.strat(800, CPU=1)], [W.strat(1200, CPU=1)]]
+    for rk, rel in (("fixed", {"release_policy": "fixed", "period": 700,
+                               "invocations": 4}),
+                    ("poisson", {"release_policy": "poisson", "rate": 0.002,
+                                 "invocations": 4})):
+        wl = W.workload_from_dag(names, fork, slow, rel, (0, 30))
+        for pk in ("EDF+enf", "FIFO+enf"):
+            pf = dict(W.GREEDY_ENF[pk])
+            for sd in seeds:
+                g.append((f"latency-scale {rk} {pk} seed={sd}",
+                          W.mk_world(wl, W.cluster([dict(CPU=2)]), pf, sd, tape=None)))
     conds = list(W.s_cond({"EDF": pols["EDF"], "ILP+la": dict(pols["ILP+la"],
                                                               scheduler_policy="random")},
                           seed, resolve_modes=(False, True), clusters=("1x2",),
